@@ -241,3 +241,93 @@ func VerifC11_routing() {
 	t.AppendNewRow()
 	vfAssert(len(t.Errors()) == before+len(raised)-raisedBefore, "append-new-row-adds-only-newly-raised-errors")
 }
+
+// VerifC11_emptyrow: errors a detached row gathered while it had no cells yet (recorded directly, or
+// by misusing a zero-value row) move to the table when the row is attached, like any others.
+func VerifC11_emptyrow() {
+	t := New()
+	if vfChoice("hdr", 2) == 1 {
+		t.AddHeaders("h")
+	}
+	total := 0
+	d0 := errors.New("table-error-before")
+	if vfChoice("table-error", 2) == 1 {
+		t.AddError(d0)
+		total++
+	}
+	var r *Row
+	kind := vfChoice("row-kind", 4)
+	switch kind {
+	case 0:
+		r = NewRow()
+	case 1:
+		r = t.NewRowSizedFor()
+	case 2:
+		r = NewRowWithCapacity(2)
+	case 3:
+		r = &Row{}
+	}
+	d1 := errors.New("first")
+	d2 := errors.New("second")
+	n := vfChoice("row-errors", 3)
+	if n >= 1 {
+		r.AddError(d1)
+		total++
+	}
+	if n >= 2 {
+		r.AddError(d2)
+		total++
+	}
+	cellsBefore := vfChoice("cells-before", 2)
+	if cellsBefore == 1 {
+		r.Add(NewCell("a"))
+		if kind == 3 {
+			total++ // a zero-value row is not a cell row: the misuse is recorded
+			vfTag("zero-value-row-misused")
+		}
+	}
+	t.AddRow(r)
+	if vfChoice("cells-after", 2) == 1 {
+		r.Add(NewCell("b"))
+		if kind == 3 {
+			total++
+		}
+	}
+	late := errors.New("after-attach")
+	if vfChoice("late", 2) == 1 {
+		r.AddError(late)
+		total++
+	}
+	got := t.Errors()
+	vfObserveInt("errors", len(got))
+	if total == 0 {
+		vfAssert(got == nil, "nil-when-no-errors")
+		return
+	}
+	vfAssert(len(got) == total, "every-error-exactly-once")
+	count := func(e error) int {
+		k := 0
+		for i := range got {
+			if got[i] == e {
+				k++
+			}
+		}
+		return k
+	}
+	for i := range got {
+		vfAssert(got[i] != nil, "no-nil-entries")
+	}
+	if vfChoice("table-error", 2) == 1 {
+		vfAssert(count(d0) == 1, "earlier-table-error-still-reported-once")
+	}
+	if n >= 1 {
+		vfAssert(count(d1) == 1, "direct-row-error-reported-once")
+	}
+	if n >= 2 {
+		vfAssert(count(d2) == 1, "direct-row-error-reported-once")
+	}
+	if vfChoice("late", 2) == 1 {
+		vfAssert(count(late) == 1, "direct-row-error-reported-once")
+	}
+	vfAssert(r.Errors() == nil || len(r.Errors()) == len(got), "row-reports-through-the-table")
+}
